@@ -29,12 +29,27 @@ type Case struct {
 	Args []reffmt.Arg `json:"args"`
 	Eng  bool         `json:"eng,omitempty"`
 	One  bool         `json:"one,omitempty"`
+	// Bind: index into printerBinds, bindings of printer control variables around the call. ~A and ~S must agree with
+	// princ and prin1 under the same bindings; the integer directives bind their own base and are not affected.
+	Bind int `json:"bind,omitempty"`
+}
+
+var printerBinds = []string{"", "(*print-base* 16)", "(*print-base* 2) (*print-radix* t)", "(*print-radix* t)", "(*print-case* :upcase)", "(*print-base* 36) (*print-case* :capitalize)", "(*print-escape* nil) (*print-base* 8)"}
+
+func (c Case) bind() string {
+	if c.Bind > 0 && c.Bind < len(printerBinds) {
+		return printerBinds[c.Bind]
+	}
+	return ""
 }
 
 func (c Case) String() string {
 	parts := make([]string, len(c.Args))
 	for i, a := range c.Args {
 		parts[i] = a.Lisp()
+	}
+	if b := c.bind(); b != "" {
+		return fmt.Sprintf("(let (%s) (format nil %q %s))", b, c.Ctrl, strings.Join(parts, " "))
 	}
 	return fmt.Sprintf("(format nil %q %s)", c.Ctrl, strings.Join(parts, " "))
 }
@@ -68,19 +83,20 @@ func object(a reffmt.Arg) slip.Object {
 type printer struct {
 	cache map[string]string
 	err   string
+	bind  string
 }
 
 var thePrinter = &printer{cache: map[string]string{}}
 
 func (p *printer) text(fn string, a reffmt.Arg) string {
 	kb, _ := json.Marshal(a)
-	key := fn + string(kb)
+	key := fn + p.bind + string(kb)
 	if s, ok := p.cache[key]; ok {
 		return s
 	}
 	scope := slip.NewScope()
 	scope.Let(slip.Symbol("x"), object(a))
-	out := ev.Eval(scope, "(let ((s (make-string-output-stream))) ("+fn+" x s) (get-output-stream-string s))")
+	out := ev.Eval(scope, "(let ("+p.bind+") (let ((s (make-string-output-stream))) ("+fn+" x s) (get-output-stream-string s)))")
 	s, ok := out.Val.(slip.String)
 	if out.Kind != ev.Value || !ok {
 		p.err = fmt.Sprintf("(%s %s stream) => %s", fn, a.Lisp(), out)
@@ -189,6 +205,10 @@ func run(sub string, c Case) *h.Result {
 	res.Classes = append(res.Classes, "dirs:"+strconv.Itoa(min(sh.Dirs, 6)), "depth:"+strconv.Itoa(sh.Depth))
 
 	thePrinter.err = ""
+	thePrinter.bind = c.bind()
+	if c.Bind > 0 {
+		res.Classes = append(res.Classes, "printer-variables-bound")
+	}
 	want, info := reffmt.Render(c.Ctrl, c.Args, thePrinter, policies[0])
 	if thePrinter.err != "" {
 		res.Err = fmt.Sprintf("%s: %s", c, thePrinter.err)
@@ -223,7 +243,7 @@ func run(sub string, c Case) *h.Result {
 	res.Evals = len(forms)
 	var texts []string
 	for i, f := range forms {
-		out := guarded(sub, c, scope, fmt.Sprintf(f, names.String()))
+		out := guarded(sub, c, scope, "(let ("+c.bind()+") "+fmt.Sprintf(f, names.String())+")")
 		if out.Kind != ev.Value {
 			res.Err = fmt.Sprintf("%s [destination %d]: expected %q, got %s", c, i, want, out)
 			return res
